@@ -51,6 +51,9 @@ type GenConfig struct {
 	// NamedScalars: declare one or two named scalar definitions (`Label: string`)
 	// and refer to them directly, from lists and from maps (elements possibly null)
 	NamedScalars bool
+	// TypeLists: a third of the unions of scalars are written as a list of type
+	// names (`"type": ["integer", "string"]`) in JSON Schema / OpenAPI
+	TypeLists bool
 	// RefChain: three struct definitions of scalar-like fields, each holding a
 	// plain reference ("inner") to the next one: Entry.inner.inner is an object
 	// two references away
@@ -877,7 +880,11 @@ func (g *mgen) unionScalars() T {
 	pool := []T{{Kind: KString}, {Kind: KBool}, {Kind: KInt}, {Kind: KFloat}, {Kind: KArray, Elem: &T{Kind: KString}}}
 	n := rapid.IntRange(2, 3).Draw(g.t, "nbranches")
 	branches := rapid.Permutation(pool).Draw(g.t, "branches")[:n]
-	return T{Kind: KUScalars, Branches: branches}
+	u := T{Kind: KUScalars, Branches: branches}
+	if g.f != CUE && g.cfg.TypeLists && rapid.IntRange(0, 2).Draw(g.t, "typelist") == 0 {
+		u.TypeList = true // only takes effect when every branch is a plain scalar
+	}
+	return u
 }
 
 func (g *mgen) unionStructs() T {
